@@ -205,17 +205,17 @@ CHECKS = {
         kani=[dict(crate="nexrad-decode", files=["wire_layout.rs", "drd.rs", "c07.rs"], harnesses=
             layout_h(["DrdHeader", "DataBlockId", "VolumeDataBlock", "ElevationDataBlock", "RadialDataBlock", "GenericDataBlockHeader"]) + [
             dict(name="c02_generic_block_new_len", what="GenericDataBlock::new: gate buffer length == gates x (word_size/8) for all u16 x u8"),
-            dict(name="drd_route_vol", bounded="1 block, contents symbolic", what="VOL block delivered as volume block, others absent, reader ends after block"),
-            dict(name="drd_route_elv", bounded="1 block, contents symbolic", what="ELV routing"),
-            dict(name="drd_route_rad", bounded="1 block, contents symbolic", what="RAD routing"),
-            dict(name="drd_route_ref", bounded="1 block, gates<=2, word 8/16", what="REF routing, gate bytes intact"),
+            dict(name="drd_route_vol", bounded="1 block, selected bytes symbolic", tier="thorough", what="VOL block delivered as volume block, others absent, reader ends after block"),
+            dict(name="drd_route_elv", bounded="1 block, selected bytes symbolic", what="ELV routing"),
+            dict(name="drd_route_rad", bounded="1 block, selected bytes symbolic", what="RAD routing"),
+            dict(name="drd_route_ref", bounded="1 block, 2 gates x 8 bit", tier="thorough", what="REF routing, gate bytes intact"),
             dict(name="drd_route_vel", bounded="1 block, gates<=2, word 8/16", tier="thorough", what="VEL routing"),
             dict(name="drd_route_sw", bounded="1 block, gates<=2, word 8/16", tier="thorough", what="SW routing"),
             dict(name="drd_route_zdr", bounded="1 block, gates<=2, word 8/16", tier="thorough", what="ZDR routing"),
             dict(name="drd_route_phi", bounded="1 block, gates<=2, word 8/16", tier="thorough", what="PHI routing"),
             dict(name="drd_route_rho", bounded="1 block, gates<=2, word 8/16", tier="thorough", what="RHO routing"),
             dict(name="drd_route_cfp", bounded="1 block, gates<=2, word 8/16", tier="thorough", what="CFP routing"),
-            dict(name="drd_two_blocks_permuted_gap", bounded="2 blocks, permuted pointers, 4-byte gap", what="pointer order != layout order, gap between blocks"),
+            dict(name="drd_two_blocks_permuted_gap", bounded="2 blocks, permuted pointers, 4-byte gap", tier="thorough", what="pointer order != layout order, gap between blocks"),
         ])],
         trusted_base=KANI_TRUST + ["in-harness Read+Seek slice reader stands for Cursor<&[u8]> (decoder uses only the Read/Seek contract)"],
         not_decided=["all 2^10 block subsets x orders x pointer layouts are not enumerated: per-name routing and one two-block "
